@@ -565,10 +565,15 @@ pub fn check_session(cap: &Capture, scn: &DebugScenario, report: &mut Report) ->
         stdin: if scn.input_is_deliverable() { scn.input.clone() } else { Vec::new() },
         fuel: 60_000,
         max_idle: u64::MAX,
+        max_commands: u64::MAX,
         log_exec: false,
     };
     let plain = run_session(cap, &plain_session);
     match &plain.end {
+        End::Hang => {
+            out.violations.push(Violation::new("C03", "C03/hang", "plain run did not come back within the hang guard"));
+            return out;
+        }
         End::AsmError(_) => {
             out.discarded = Some("asm-error".into());
             return out;
@@ -665,10 +670,21 @@ pub fn check_session(cap: &Capture, scn: &DebugScenario, report: &mut Report) ->
         stdin: if has_input { scn.input.clone() } else { delivery.stdin.clone() },
         fuel,
         max_idle: 24,
+        // Every script line plus the implicit end of input, with slack for blank commands
+        max_commands: 2 * (scn.script.len() as u64 + 4),
         log_exec: true,
     };
     let real = run_session(cap, &session);
     report.sim_ticks += plain.ticks + real.ticks;
+    if real.end == End::Hang {
+        // Not even the simulated clock advances: lace loops inside one command or one read
+        out.violations.push(Violation::new(
+            "C16",
+            "C16/hang/no-tick-no-command",
+            format!("the session did not come back within {} s of wall-clock: endless loop outside the run loop", crate::world_a::HANG_GUARD_S),
+        ));
+        return out;
+    }
 
     // ----- lockstep -----
     let mut dbg = Dbg::new(vm, &breaks, labels, MODEL_BUDGET);
@@ -1400,6 +1416,7 @@ pub fn run_delivery(cap: &Capture, scn: &DebugScenario, transport: &Transport, s
         stdin: if *transport == Transport::Arg && scn.input_is_deliverable() { scn.input.clone() } else { delivery.stdin },
         fuel: 4 * (120_000 + script.len() as u64 + 1) + 64,
         max_idle: 24,
+        max_commands: 2 * (script.len() as u64 + 4),
         log_exec: true,
     };
     run_session(cap, &session)
